@@ -10,6 +10,11 @@ struct Stage {
     int64_t     chunks = 0;
     ChunkFn     fn;
     double      hang_s = 20;
+    // dynamic stages (level-synchronous searches): `prepare` runs in the parent before each round and returns the number
+    // of chunks (0 ends the stage); `collect` receives the round's records and returns true to run another round.
+    std::function<int64_t()>            prepare;
+    std::function<bool(PoolResult &)>   collect;
+    std::function<int(const std::string &)> replay; // custom --replay handler for this stage ("stage=<n> <rest>")
 };
 
 struct Plan {
@@ -55,6 +60,14 @@ inline int standard_main(int argc, char **argv, const std::function<Plan(const A
     if (!a.replay.empty()) {
         int     st;
         int64_t c, i;
+        {
+            long long cs = -1;
+            if (sscanf(a.replay.c_str(), "custom stage=%lld", &cs) == 1 && cs >= 0 && cs < (long long)plan.stages.size() &&
+                plan.stages[(size_t)cs].replay) {
+                size_t sp = a.replay.find(' ', 7);
+                return plan.stages[(size_t)cs].replay(sp == std::string::npos ? "" : a.replay.substr(sp + 1));
+            }
+        }
         if (!parse_replay(a.replay, st, c, i) || st < 0 || st >= (int)plan.stages.size()) {
             fprintf(stderr, "cannot parse replay '%s'\n", a.replay.c_str());
             return 2;
@@ -91,15 +104,40 @@ inline int standard_main(int argc, char **argv, const std::function<Plan(const A
         Stage &S = plan.stages[s];
         po.hang_s = S.hang_s;
         Pool    pool(po);
+        pool.cur_stage = (int)s;
         ChunkFn fn = [&](int64_t ch, Ctx &ctx) {
             ctx.stage = (int)s;
             S.fn(ch, ctx);
         };
         double     ts = now();
-        PoolResult r  = pool.run(S.chunks, fn);
-        part.acc.merge(r.acc);
+        PoolResult r;
+        int        rounds = 0;
+        for (;;) {
+            int64_t nchunks = S.prepare ? S.prepare() : S.chunks;
+            if (nchunks <= 0) {
+                break;
+            }
+            PoolResult rr = pool.run(nchunks, fn);
+            ++rounds;
+            r.chunks_total += rr.chunks_total;
+            r.chunks_done += rr.chunks_done;
+            r.crashes += rr.crashes;
+            r.hangs += rr.hangs;
+            r.unreproduced += rr.unreproduced;
+            r.complete = r.complete && rr.complete;
+            bool again = S.collect ? S.collect(rr) : false;
+            rr.acc.records.clear();
+            part.acc.merge(rr.acc);
+            if (!again || !rr.complete) {
+                break;
+            }
+            if (po.deadline > 0 && now() > po.deadline) {
+                r.complete = false; // stopped between rounds: the completed rounds are exhaustive, the search is not
+                break;
+            }
+        }
         char b[256];
-        snprintf(b, sizeof b, " [%s: chunks %lld/%lld%s, crashes %llu, hangs %llu, %.1fs]", S.name.c_str(),
+        snprintf(b, sizeof b, " [%s: rounds %d, chunks %lld/%lld%s, crashes %llu, hangs %llu, %.1fs]", S.name.c_str(), rounds,
                  (long long)r.chunks_done, (long long)r.chunks_total, r.complete ? "" : " DEADLINE", (unsigned long long)r.crashes,
                  (unsigned long long)r.hangs, now() - ts);
         bounds += b;
